@@ -108,7 +108,7 @@ class Evaluator(object):
             if isinstance(sv.t, TOpt) and isinstance(sv.t.inner, TVal):
                 return SV(z3.If(sv.t.is_none(cx, sv.e), cx.val_const("None"), sv.t.get(cx, sv.e)), t)
         if isinstance(t, TTuple) and isinstance(sv.t, TTuple) and len(t.items) == len(sv.t.items):
-            parts = [self.coerce(SV(sv.t.proj(cx, sv.e, i), sv.t.items[i]), t.items[i]).e for i in range(len(t.items))]
+            parts = [self.coerce(SV(sv.t.proj(cx, sv.e, i), sv.t.items[i]), t.items[i], what, st).e for i in range(len(t.items))]
             return SV(t.mk(cx, parts), t)
         if isinstance(t, TSeq) and isinstance(sv.t, TSeq) and sv.meta and sv.meta.get("empty_literal"):
             return SV(t.ops(cx)["empty"], t)
@@ -280,7 +280,9 @@ class Evaluator(object):
                     hi = self.ev(sl.upper, st).e
                     hi = z3.If(hi < 0, z3.If(ln + hi < 0, 0, ln + hi), z3.If(hi > ln, ln, hi))
                     e = o["take"](e, hi)
-                e = o["drop"](e, z3.simplify(lo))
+                lo = z3.simplify(lo)
+                if not (z3.is_int_value(lo) and lo.as_long() == 0):
+                    e = o["drop"](e, lo)
                 return SV(e, obj.t)
             i = self.ev(sl, st)
             if not isinstance(i.t, TInt):
